@@ -11,7 +11,7 @@ VH_FEATURES = ["reader"]
 PER_OP_SECONDS = 20
 THEOREMS = {"check_iff": "full: verdict good <-> length and CRC of the decoded bytes match (non-Mac members)",
             "check_iff_arc": "full: ... and that CRC is CRC-16/ARC", "extract_iff": "full", "truncation_bad": "full",
-            "check_dir": "full", "(MacBinary members)": "correspondence only",
+            "check_dir": "full", "check_iff_all": "full: every member incl. the MacBinary pass-through (no OS-type hypothesis)", "extract_iff_all": "full", "truncation_bad_all": "full",
             "crc16_burst": "full: every data, every non-zero error burst of <= 16 bits changes the CRC (16 is optimal)",
             "crc_linear": "full", "single_bit_detected": "full",
             "(exit status of the tool)": "correspondence only"}
@@ -221,5 +221,5 @@ LEVEL_TEXT = ("Lean theorems over the reader model: the verdict of check / extra
               "length and CRC-16/ARC (any truncation => bad). The C is tied by runs that record what was written and compare with an independent "
               "CRC: exhaustive bit bursts on small stored members, every truncation, CRC-collision truncations, damaged real members; the tool's "
               "exit status on multi-member archives.")
-LEVEL_NOTE = "Partial: MacBinary members and the tool's messages/exit status are covered by correspondence only; the verdict logic and the burst-error property of CRC-16/ARC are proved."
+LEVEL_NOTE = "Partial: the tool's messages/exit status are covered by correspondence only; the verdict logic for every member kind (plain and MacBinary) and the burst-error property of CRC-16/ARC are proved."
 TECHNIQUE = "Lean 4 proof (verdict = length and CRC, via the wrapper bookkeeping theorems) + corruption-enumeration correspondence"
